@@ -8,14 +8,32 @@ use std::future::Future;
 use std::pin::Pin;
 use std::task::{Context, Poll};
 
-struct Counted<F>(Pin<Box<F>>);
+struct Counted<F> {
+    inner: Pin<Box<F>>,
+    /// every task first waits for a "task start" op: under the shipped multi-thread runtime
+    /// spawned tasks begin in any order, so the order is the scheduler's seeded choice here
+    start: Option<crate::kernel::AsyncOp<()>>,
+}
 
 impl<F: Future> Future for Counted<F> {
     type Output = F::Output;
-    fn poll(mut self: Pin<&mut Self>, cx: &mut Context<'_>) -> Poll<F::Output> {
+    fn poll(self: Pin<&mut Self>, cx: &mut Context<'_>) -> Poll<F::Output> {
         bump_activity();
-        self.0.as_mut().poll(cx)
+        let me = unsafe_free_get_mut(self);
+        if let Some(op) = me.start.as_mut() {
+            match op.poll_op(cx) {
+                Poll::Pending => return Poll::Pending,
+                Poll::Ready(_) => me.start = None,
+            }
+        }
+        me.inner.as_mut().poll(cx)
     }
+}
+
+// Counted is Unpin (a pinned box and an Unpin op), so get_mut is safe without `unsafe`
+impl<F> Unpin for Counted<F> {}
+fn unsafe_free_get_mut<F>(p: Pin<&mut Counted<F>>) -> &mut Counted<F> {
+    Pin::get_mut(p)
 }
 
 /// `tokio::spawn` with poll counting (the task itself is a real tokio task).
@@ -24,7 +42,10 @@ where
     F: Future + Send + 'static,
     F::Output: Send + 'static,
 {
-    ::tokio::spawn(Counted(Box::pin(f)))
+    let start = crate::kernel::AsyncOp::new(crate::kernel::OpKind::TaskStart, false, |_| true, |_, rec| {
+        rec.ok = true;
+    });
+    ::tokio::spawn(Counted { inner: Box::pin(f), start: Some(start) })
 }
 
 struct Driver<F> {
